@@ -106,7 +106,7 @@ def header(S, mutable):
     f = fns[0]
     ins = f['sig']['inputs']
     out = ty_s(f['sig']['output']).replace(' ', '') if f['sig']['output'] else ''
-    if not (len(ins) == 1 and ins[0]['k'] == 'Self' and ins[0]['ref'] and ins[0]['mut'] == mutable and out == ('&mutSelf::Target' if mutable else '&Self::Target')):
+    if not (len(ins) == 1 and ins[0]['k'] == 'Self' and ins[0]['ref'] and ins[0]['mut'] == mutable and out in (('&mutSelf::Target', '&mut<Selfas::core::ops::Deref>::Target') if mutable else ('&Self::Target', '&<Selfas::core::ops::Deref>::Target'))):
         S.bad('SUM-DEREF', 'signature', 'unexpected signature of fn %s' % name, site)
         return None
     tys = [ii for ii in impl['items'] if ii['k'] == 'Type']
